@@ -333,6 +333,9 @@ func runC13(p *core.Prog, r *core.Report, tier string) {
 					if _, isBool := b.Elem().Underlying().(*types.Basic); isBool {
 						return // the request set
 					}
+					if st, isStruct := b.Elem().Underlying().(*types.Struct); isStruct && st.NumFields() == 0 {
+						return // the request set as map[K]struct{}
+					}
 				}
 				construct := tag + "|" + core.FnKey(f) + "|result-entry"
 				rg, which, isR := core.MapRange(mu.Key)
@@ -537,7 +540,7 @@ func runC13(p *core.Prog, r *core.Report, tier string) {
 			if !ok {
 				return
 			}
-			kd, vd := ds.D(mu.Key), ds.D(mu.Value)
+			kd, vd := ds.D(core.SoleFeasibleLeaf(f, mu.Key, mu)), ds.D(core.SoleFeasibleLeaf(f, mu.Value, mu))
 			okK := kd.Kind == "lookup" && kd.Args[0].HasFieldSuffix("validatorPubKeyToIndex")
 			okV := vd.Any(func(x *core.VD) bool { return x.Kind == "lookup" && x.Args[0].HasFieldSuffix("validatorsByPubKey") })
 			sameKey := false
